@@ -16,8 +16,9 @@ Definition marks (adj : nat -> list nat) (start : nat) (check : list nat) (fuel 
   filter (stop_at check start)
          (closure Nat.eqb (fun v => if stop_at check start v then [] else adj v) [start] fuel).
 
-(* neighbours in the moral graph of [ga] after the nodes of I were deleted from it *)
-Definition adj_wo (ga : mgraph) (I : list nat) (v : nat) : list nat := diffb (moral_nbrs ga v) I.
+(* neighbours in the moral graph (vs, me) after the nodes of I were deleted from it *)
+Definition adj_wo (vs : list nat) (me : list (nat * nat)) (I : list nat) (v : nat) : list nat :=
+  diffb (nbrs_in vs me v) I.
 
 Definition not_xy (x y v : nat) : bool := negb (Nat.eqb v x) && negb (Nat.eqb v y).
 
@@ -28,9 +29,10 @@ Definition minsep_cand (g : mgraph) (x y : nat) (I R : list nat) : list nat :=
   let A := ant_of g (x :: y :: I) in
   let ga := restrict g A in
   let n := length (V ga) in
+  let me := moral_edges ga in
   let Z1 := filter (not_xy x y) (interb R A) in          (* (R2) *)
-  let Z2 := marks (adj_wo ga I) x Z1 n in
-  let Z3 := marks (adj_wo ga I) y Z2 n in
+  let Z2 := marks (adj_wo (V ga) me I) x Z1 n in
+  let Z3 := marks (adj_wo (V ga) me I) y Z2 n in
   sort_set (Z3 ++ I).
 
 Definition minsep_model (g : mgraph) (x y : nat) (I R : list nat) : option (list nat) :=
@@ -45,8 +47,9 @@ Definition is_minsep_model (g : mgraph) (x y : nat) (Z I R : list nat) : nat :=
   if negb (sep1 g x y Z) then 0 else
   let ga := restrict g A in
   let n := length (V ga) in
-  if negb (seteqb (diffb Z I) (marks (adj_wo ga I) x Z n)) then 0 else
-  if negb (seteqb (diffb Z I) (marks (adj_wo ga I) y Z n)) then 0 else 1.
+  let me := moral_edges ga in
+  if negb (seteqb (diffb Z I) (marks (adj_wo (V ga) me I) x Z n)) then 0 else
+  if negb (seteqb (diffb Z I) (marks (adj_wo (V ga) me I) y Z n)) then 0 else 1.
 
 (* ---- brute force over all subsets, parametrised by the separation test ---- *)
 Definition cands (I R : list nat) : list (list nat) := filter (subsetb I) (sublists R).
